@@ -140,6 +140,7 @@ const TypesSchema = `module types { namespace "urn:types"; prefix t; revision 0;
     leaf bits { type bits { bit x; bit y; bit z; } }
     leaf idr { type identityref { base base-id; } }
     leaf emp { type empty; }
+    anydata ad;
     leaf bin { type binary; }
     leaf un { type union { type int32; type string; } }
     leaf-list ls { type string; }
